@@ -207,9 +207,39 @@ def run_verus(unit, workdir, canary=False, timeout=420):
     }
 
 
+class Undecided(Infra):
+    """solver time-out / resource limit: undecided, unless a witness search finds a failing input on the real code"""
+
+
 def decide_verus_unit(unit, tier, workdir):
     """returns dict with obligations (list), failures (list), infra problems raise Infra"""
-    main = run_verus(unit, workdir)
+    from . import witness as W
+    seed = int(os.environ.get("VERIF_SEED", "0") or 0)
+    try:
+        return _decide_verus_unit(unit, tier, workdir, W, seed)
+    except Undecided as u:
+        w = W.run_witness(unit, seed)
+        if w is None or not w["fails"]:
+            raise
+        fails = w["fails"]
+        fn = fails[0].get("fn", "?")
+        return {
+            "unit": unit["name"], "backend": "verus", "cmd": w["cmd"], "wall": 0.0, "smt_ms": 0, "assumed": [], "dropped": [], "rule_uses": {},
+            "obligations": [{"name": f"{unit['name']}/{fn}", "backend": "verus+witness", "ok": False, "us": 0, "kind": "contract"}],
+            "failures": [{"obligation": f"{unit['name']}/{fn}", "clause": fails[0].get("clause", ""), "unit": unit["name"], "fn": fn,
+                          "msg": "verifier undecided (" + str(u)[:120] + "); counterexample search on the real code found a failing input",
+                          "raw": str(u)[:2000], "input": {"failing_inputs": fails[:5], "cases_tried": w["cases"]}}],
+            "functions_under_contract": [], "canary": {}, "assumption_scan": {}, "items": [],
+        }
+
+
+def _decide_verus_unit(unit, tier, workdir, W, seed):
+    try:
+        main = run_verus(unit, workdir)
+    except Infra as e:
+        if "time-out" in str(e):
+            raise Undecided(str(e))
+        raise
     rep = main["report"]
     contracted = [f["fn"] for f in rep["functions"] if f["contracted"]]
     fnres = {f["fn"]: f for f in main["functions"]}
@@ -219,7 +249,7 @@ def decide_verus_unit(unit, tier, workdir):
         # a resource-limit error is "undecided", not a violation
         res_fns = {e["fn"] for e in main["errors"] if "rlimit" in e["raw"] or "Resource limit" in e["raw"]}
         if res_fns:
-            raise Infra(f"{unit['name']}: solver resource limit in {sorted(str(x) for x in res_fns)} (undecided, not a violation)")
+            raise Undecided(f"{unit['name']}: solver resource limit in {sorted(str(x) for x in res_fns)} (undecided, not a violation)")
     extracted = {f["fn"] for f in rep["functions"] if not f["assumed"]}
     for f in main["functions"]:
         # count only code extracted from /repo and the unit's own ghost lemmas; prelude helpers and derived clones are not obligations
@@ -248,6 +278,25 @@ def decide_verus_unit(unit, tier, workdir):
     for ff in failed_fns:
         if not any(x["fn"] == ff or (x["fn"] and ff.endswith(x["fn"])) for x in failures):
             failures.append({"obligation": f"{unit['name']}/{ff}", "clause": "", "msg": "function failed verification", "raw": main["stderr"][-2500:], "unit": unit["name"], "fn": ff})
+    # a failed obligation: look for a failing input on the real code (replay)
+    if failures:
+        w = W.run_witness(unit, seed)
+        if w is not None and w["fails"]:
+            for f in failures:
+                mine = [x for x in w["fails"] if x.get("fn") in (None, f["fn"])] or w["fails"]
+                f["input"] = {"failing_inputs": mine[:5], "cases_tried": w["cases"]}
+    # bounded clauses that only the executable search checks (labelled bounded, never counted as proved)
+    wa = unit.get("witness_always")
+    if not failures and wa and (wa == "quick" or tier == "thorough"):
+        w = W.run_witness(unit, seed)
+        if w is not None:
+            ok = not w["fails"]
+            obligations.append({"name": f"{unit['name']}/witness-search", "backend": "cargo test (executable postcondition on the real code)", "ok": ok, "us": 0,
+                                "bounded": unit.get("witness_bound", f"{w['cases']} grid cases"), "kind": "bounded"})
+            if not ok:
+                f0 = w["fails"][0]
+                failures.append({"obligation": f"{unit['name']}/{f0.get('fn', '?')}", "clause": f0.get("clause", ""), "msg": "bounded search on the real code found a failing input",
+                                 "raw": json.dumps(w["fails"][:5]), "unit": unit["name"], "fn": f0.get("fn"), "input": {"failing_inputs": w["fails"][:5], "cases_tried": w["cases"]}})
     # vacuity canary
     can = run_verus(unit, workdir, canary=True)
     canres = {f["fn"]: f for f in can["functions"]}
